@@ -390,8 +390,14 @@ def reseed_forgets_use(chk, stats):
             hist2 = np.column_stack([g.choice(col, size=10) for col in pts2])
             l3, l2 = g.random(12), g.random(10)
             with contextlib.redirect_stdout(io.StringIO()), np.errstate(all="ignore"):
+                # the earlier work was on a space of another dimension, or (every other case) of the SAME dimension - whatever
+                # the sampler keeps per dimension / per space must not survive the reseed either
+                same_dims = n % 2 == 1
                 for _j in range(rng.randint(1, 3)):
-                    used.sample(big, hist3, l3)
+                    if same_dims:
+                        used.sample(small, hist2[::-1].copy(), l2[::-1].copy())
+                    else:
+                        used.sample(big, hist3, l3)
                 used.random_state = k
                 fresh.random_state = k
                 a = [used.sample(small, hist2, l2).tobytes() for _j in range(2)]
